@@ -146,6 +146,11 @@ struct Env {
         void violation(const char *prop, const std::string &cls, const std::string &sig, const std::string &detail,
                        bool model_ok_after = true);
         bool tainted = false;
+        // CPU-time limit for the next library calls (0 = none). When it expires inside a call the call is abandoned: with
+        // cancel_is_benign the run ends without a verdict (the harness cancelled a long computation on purpose, nothing is observed
+        // afterwards); otherwise it is reported as a call that does not return.
+        double call_cpu_limit_s = 0;
+        bool cancel_is_benign = false;
         // when set, calls of isal_* entry points that have a deprecated twin with the same signature go to the twin instead
         bool legacy_api = false;
         // record an observable value (C20 history) and into the event log
